@@ -51,12 +51,12 @@ type Term struct {
 }
 
 type Ctx struct {
-	table map[string]*Term
-	Terms []*Term
-	Vars  []*Term
-	UFs   map[string]string // name -> declaration
-	ufOrd []string
-	fresh int
+	table      map[string]*Term
+	Terms      []*Term
+	Vars       []*Term
+	UFs        map[string]string // name -> declaration
+	ufOrd      []string
+	fresh      int
 	pieceCache map[int][]piece
 }
 
@@ -847,6 +847,10 @@ func (c *Ctx) Eval(t *Term, env map[int]uint64, memo map[int]uint64) (uint64, bo
 	case "bvneg":
 		r = -vals[0] & mask(t.Sort.W)
 	default:
+		// binary bit-vector operators and comparisons only (floating-point and uninterpreted applications are not evaluated)
+		if !strings.HasPrefix(t.Op, "bv") || len(t.Args) != 2 || t.Args[0].Sort.K != KBV || t.Args[1].Sort.K != KBV || t.Args[0].Sort.W <= 0 || t.Args[1].Sort.W <= 0 {
+			return 0, false
+		}
 		w := t.Args[0].Sort.W
 		a, b := c.BV(w, vals[0]), c.BV(w, vals[1])
 		var ft *Term
